@@ -2,7 +2,9 @@ import hashlib, json, os, re, shutil, subprocess, sys, tempfile, time
 
 VERIF = os.path.dirname(os.path.dirname(os.path.abspath(__file__)))
 REPO = os.environ.get("VERIF_REPO", "/repo")
-GOENV = dict(os.environ, GOFLAGS="-mod=mod", GOPROXY="off", GOSUMDB="off", GOTOOLCHAIN="local")
+# -trimpath: the scratch workspace has a fresh name on every run; without it every run adds all its
+# packages to the Go build cache under new action ids (the cache grew to 136 GB during this work)
+GOENV = dict(os.environ, GOFLAGS="-mod=mod -trimpath", GOPROXY="off", GOSUMDB="off", GOTOOLCHAIN="local")
 NCPU = int(os.environ.get("VERIF_JOBS", "16"))
 
 CLAIMED = {}  # id -> plan function (filled by plans.py)
